@@ -397,9 +397,15 @@ class _GenerateRenderMethod:
                         self.write_inline_def(node, identifiers, nested=False)
                         export.append(node.funcname)
 
+                # these defs are written into the function that builds the
+                # namespaces: the names imported from namespaces
+                # (_import_ns) exist in the render functions only
+                has_ns_imports = getattr(self.compiler, "has_ns_imports", False)
+                self.compiler.has_ns_imports = False
                 vis = NSDefVisitor()
                 for n in node.nodes:
                     n.accept_visitor(vis)
+                self.compiler.has_ns_imports = has_ns_imports
                 self.printer.writeline("return [%s]" % (",".join(export)))
                 self.printer.writeline(None)
                 self.in_def = False
